@@ -230,13 +230,13 @@ def match_cases(tier, rng):
     n_exh = len(out)
     # sampled: up to 3 x 3 (4 x 3 in thorough)
     for _ in range(2500 if quick else 40000):
-        G, P = rng.randint(0, 3 if quick else 4), rng.randint(0, 3)
+        G, P = (0 if rng.random() < 0.04 else rng.randint(1, 3 if quick else 4)), rng.randint(0, 3)
         table = [[rng.choice(levels[1:] if rng.random() < 0.8 else levels) for _ in range(P)] for _ in range(G)]
         out.append(dict(kind="match", src="stub", G=G, P=P, table=table, sc=rng.choice(weak_orders(P)), thr=rng.choice([0, 0, 0.5])))
     # real geometry, real compute_oks
     for _ in range(600 if quick else 8000):
         N = rng.choice([1, 2, 3])
-        G, P = rng.randint(0, 3), rng.randint(0, 3)
+        G, P = (0 if rng.random() < 0.04 else rng.randint(1, 3)), rng.randint(0, 3)
         gts = []
         for g in range(G):
             cx, cy = 100 + rng.randint(0, 60), 100 + rng.randint(0, 60)
